@@ -36,6 +36,15 @@ def register_command(subparsers):
     parser.set_defaults(func=main)
 
 
+def _printable_path(path: pathlib.Path, cwd: pathlib.Path) -> str:
+    # Compute a relative path to the current working directory, if possible
+    # (the command may be invoked from anywhere inside the project).
+    try:
+        return str(path.relative_to(cwd))
+    except ValueError:
+        return str(path)
+
+
 @cli_command
 def main(args):
     ctx = Context.from_cwd()
@@ -77,9 +86,9 @@ def main(args):
 
         if args.dry_run:
             for exp_path in to_delete:
-                print("Would delete", str(exp_path.relative_to(cwd)))
+                print("Would delete", _printable_path(exp_path, cwd))
         else:
             for exp_path in to_delete:
                 if args.verbose:
-                    print("Deleting", str(exp_path.relative_to(cwd)))
+                    print("Deleting", _printable_path(exp_path, cwd))
                 shutil.rmtree(exp_path, ignore_errors=True)
